@@ -119,6 +119,8 @@ inductive Ev
   | status (op : Nat) (maxSize size available waiting : Nat)
   | resized (op : Nat) (n : Nat)
   | closedEv (op : Nat)
+  /-- a non-get operation (return, take) ended in a panic raised by user code -/
+  | opPanic (op : Nat)
 deriving Repr, DecidableEq, Inhabited
 
 inductive Fault | underflow
@@ -356,6 +358,11 @@ def stepGet (s : State) (i : Nat) (t : Timeouts) (pc : GPc) (oc : Outcome) : Opt
     match c with
     | .retry => some (s.setOp i (.get t .pop))
     | .fail r => some (s.setOp i (.get t (.dropPermit r)))
+  -- 167: `Manager::detach` panics (not while unwinding already - that would abort): the object is
+  -- destroyed by the unwinding, which also runs the RAII steps below; the call ends in a panic
+  | .unreadyDetach o c, .panic =>
+    if c == .fail .panicked then none else
+    some ((s.emit [.detach i o.id, .destroy i o.id]).setOp i (.get t (.dropPermit .panicked)))
   -- RAII: the permit goes back
   | .dropPermit r, .run =>
     some ({ s with sem := s.sem.addPermits 1 }.setOp i (.get t (.dropUsers r)))
@@ -398,6 +405,16 @@ def stepTake (s : State) (i : Nat) (pc : TPc) (o : Obj) (add : Bool) : Option St
       (.take (if add then .addPermits else .detach) o add))
   | .addPermits => some ({ s with sem := s.sem.addPermits 1 }.setOp i (.take .detach o add))
   | .detach => some ((s.setOp i .done).emit [.detach i o.id, .taken i o.id])
+
+/-- `Manager::detach` panics inside `Object::take`: the books are already done, the value is
+destroyed by the unwinding instead of being handed to the caller -/
+def stepTakePanic (s : State) (i : Nat) (o : Obj) : Option State :=
+  some ((s.setOp i .done).emit [.detach i o.id, .destroy i o.id, .opPanic i])
+
+/-- `Manager::detach` panics on the surplus path of `return_object`: the books are already
+done, the object is destroyed by the unwinding, `drop` ends in a panic -/
+def stepRetPanic (s : State) (i : Nat) (o : Obj) : Option State :=
+  some ((s.setOp i .done).emit [.detach i o.id, .destroy i o.id, .opPanic i])
 
 /-! ### `resize` / `close` -/
 
@@ -521,8 +538,14 @@ def stepOp (s : State) (i : Nat) (oc : Outcome) : Option State :=
   | some op =>
     match op with
     | .get t pc => stepGet s i t pc oc
-    | .ret pc o => if oc == .run then stepRet s i pc o else none
-    | .take pc o add => if oc == .run then stepTake s i pc o add else none
+    | .ret pc o =>
+      if oc == .run then stepRet s i pc o
+      else if oc == .panic && pc == .detach then stepRetPanic s i o
+      else none
+    | .take pc o add =>
+      if oc == .run then stepTake s i pc o add
+      else if oc == .panic && pc == .detach then stepTakePanic s i o
+      else none
     | .resize n c pc old => if oc == .run then stepResize s i n c pc old else none
     | .retain keep => if oc == .run then stepRetain s i keep else none
     | .status => if oc == .run then stepStatus s i else none
